@@ -34,28 +34,70 @@ def rule_pow(ctx, repo, eng):
     hv, bv = fi.params[0], fi.params[1]
     E = 'CheckProofOfWorkError'
     gs = c16.guards_with_class(fi, repo)
-    defs = {}
-    for n in walk_no_nested(fi.node):
-        if isinstance(n, ast.Assign) and len(n.targets) == 1:
-            defs.setdefault(norm(n.targets[0]), []).append(norm(n.value))
-    r.check(defs.get('target') == ['uint256_from_compact(%s)' % bv], 'target-decoded', fi.site, 'target = uint256_from_compact(nBits)', 'target is computed as %s' % defs.get('target'))
-    r.check(defs.get(hv) == ['uint256_from_str(%s)' % hv], 'hash-as-integer', fi.site, 'hash read as a little-endian 256-bit integer', 'hash conversion is %s' % defs.get(hv))
-    c16.expect(r, 'negative', fi, gs, ['%s & 8388608' % bv], E, 'a compact value with the sign bit set is refused', '%s &' % bv)
-    c16.expect(r, 'range', fi, gs, ['target < 1 or target > coreparams.PROOF_OF_WORK_LIMIT'], E, 'zero and above-limit targets are refused', 'target')
-    c16.expect(r, 'hash-above-target', fi, gs, ['%s > target' % hv], E, 'hash above the target is refused, equality accepted', '%s' % hv)
-    # order: conversions precede the comparisons
-    body = [s for s in fi.node.body if not (isinstance(s, ast.Expr) and isinstance(s.value, ast.Constant))]
-    idx = {}
-    for k, s in enumerate(body):
-        t = norm(s)
-        if t.startswith('%s = uint256_from_str' % hv):
-            idx['conv'] = k
-        if isinstance(s, ast.If) and canon_guard(s.test, repo, fi.module) == canon_text('%s > target' % hv):
-            idx['cmp'] = k
-    r.check(idx.get('conv', 99) < idx.get('cmp', -1), 'order', fi.site, 'hash converted before the comparison', 'the hash is compared before it is converted to an integer')
+    # raising guards with the function's plain locals written out: the rules then speak about nBits and the hash argument
+    ld = common.local_defs(fi)
+    rg = []
+    for g_, cls_, n_ in gs:
+        t_ = n_.test if flow.always_raises(n_.body) else ast.UnaryOp(op=ast.Not(), operand=n_.test)
+        rt = common.resolved(fi, t_, repo)
+        rg.append((canon_guard(rt, repo, fi.module), cls_, n_))
+    T = 'uint256_from_compact(%s)' % bv
+    H = 'uint256_from_str(%s)' % hv
+    rebinds = [s_ for s_ in walk_no_nested(fi.node) if isinstance(s_, ast.Assign) and len(s_.targets) == 1 and norm(s_.targets[0]) == hv]
+    rebound = len(rebinds) == 1 and norm(rebinds[0].value) == H
+    decoded = any(norm(v_) == T for v_ in ld.values()) or any(T in g_ for g_, c_, n_ in rg)
+    r.check(decoded, 'target-decoded', fi.site, 'target = uint256_from_compact(nBits)', 'the target is not decoded with uint256_from_compact(%s)' % bv)
+    c16.expect(r, 'negative', fi, rg, ['%s & 8388608' % bv], E, 'a compact value with the sign bit set is refused', '%s &' % bv)
+    c16.expect(r, 'range', fi, rg, ['%s < 1 or %s > coreparams.PROOF_OF_WORK_LIMIT' % (T, T)], E, 'zero and above-limit targets are refused', T)
+    hx = hv if rebound else H
+    n_cmp = c16.expect(r, 'hash-above-target', fi, rg, ['%s > %s' % (hx, T)], E, 'hash above the target is refused, equality accepted', ('%s' % hx, hv))
+    if rebound:
+        r.ok('hash-as-integer', common.site_of(fi, rebinds[0]), 'hash read as a little-endian 256-bit integer')
+        body = [s_ for s_ in fi.node.body]
+        k_conv = [k_ for k_, s_ in enumerate(body) if any(x is rebinds[0] for x in ast.walk(s_))]
+        k_cmp = [k_ for k_, s_ in enumerate(body) if n_cmp is not None and any(x is n_cmp for x in ast.walk(s_))]
+        r.check(bool(k_conv) and bool(k_cmp) and k_conv[0] < k_cmp[0], 'order', fi.site, 'hash converted before the comparison', 'the hash is compared before it is converted to an integer')
+    elif n_cmp is not None:
+        r.ok('hash-as-integer', common.site_of(fi, n_cmp), 'the integer reading of the hash is what is compared')
+        r.ok('order', common.site_of(fi, n_cmp), 'conversion is part of the compared expression')
+    else:
+        conv = [c_ for c_ in common.iter_calls(fi.node) if norm(c_) == H]
+        if conv:
+            r.undecided('hash-as-integer', fi.site, 'the hash is converted, but the comparison with the target was not recognised')
+        else:
+            r.violated('hash-as-integer', fi.site, 'the hash is never read as a little-endian 256-bit integer (%s)' % H)
     base = repo.get_class(CORE + 'ValidationError')
     ec = repo.get_class(CORE + E)
     r.check(repo.is_subclass(ec, base), 'error-family', ec.site, 'CheckProofOfWorkError is a ValidationError', 'CheckProofOfWorkError is not in the validation-error family')
+
+
+def branch_value(stmts, var):
+    """value of `var` at the end of a straight-line branch: successive assignments composed into one expression;
+    a `return <expr>` ends the branch with that value"""
+    cur = None
+    for s in stmts:
+        e = None
+        if isinstance(s, ast.Assign) and len(s.targets) == 1 and norm(s.targets[0]) == var:
+            e = s.value
+        elif isinstance(s, ast.AugAssign) and norm(s.target) == var and cur is not None:
+            e = ast.BinOp(left=ast.Name(id=var, ctx=ast.Load()), op=s.op, right=s.value)
+        elif isinstance(s, ast.Return) and s.value is not None:
+            e = s.value
+            if cur is None and not any(isinstance(n, ast.Name) and n.id == var for n in ast.walk(e)):
+                return e
+        if e is None:
+            continue
+        if cur is not None:
+            class T(ast.NodeTransformer):
+                def visit_Name(self, n, cur=cur):
+                    if n.id == var and isinstance(n.ctx, ast.Load):
+                        return ast.parse(ast.unparse(cur), mode='eval').body
+                    return n
+            e = ast.fix_missing_locations(T().visit(ast.parse(ast.unparse(e), mode='eval').body))
+        cur = e
+        if isinstance(s, ast.Return):
+            break
+    return cur
 
 
 def rule_hash_int(ctx, repo, eng):
@@ -78,6 +120,24 @@ def rule_hash_int(ctx, repo, eng):
         i = norm(loops[0].target)
         if isinstance(b, ast.AugAssign) and isinstance(b.op, (ast.Add, ast.BitOr)):
             ok = shape.match(b.value, 't[%s] << (%s * 32)' % (i, i)) == 'same'
+    if not ok:
+        # sum(word << 32*pos for pos, word in enumerate(limbs)): the same weighted sum
+        from ..rules import canon_arith
+        und = True
+        for n in ast.walk(fi.node):
+            if isinstance(n, ast.Call) and norm(n.func) == 'sum' and len(n.args) == 1 and isinstance(n.args[0], (ast.GeneratorExp, ast.ListComp)):
+                g = n.args[0]
+                gen = g.generators[0] if len(g.generators) == 1 and not g.generators[0].ifs else None
+                if gen is not None and isinstance(gen.iter, ast.Call) and norm(gen.iter.func) == 'enumerate' and isinstance(gen.target, ast.Tuple) and len(gen.target.elts) == 2:
+                    pi, wi = norm(gen.target.elts[0]), norm(gen.target.elts[1])
+                    und = False
+                    ok = canon_arith(g.elt) == canon_arith('%s << (%s * 32)' % (wi, pi))
+                elif gen is not None and norm(gen.iter) == 'range(8)' and isinstance(gen.target, ast.Name):
+                    und = False
+                    ok = shape.match(g.elt, 't[%s] << (%s * 32)' % (gen.target.id, gen.target.id)) == 'same'
+        if not ok and und and not loops:
+            r.undecided('weights', fi.site, 'the limbs are combined in a form that is not recognised')
+            return
     r.check(ok, 'weights', fi.site, 'r += limb[i] << 32*i for i in 0..7', 'limbs are not combined as limb[i] << (32*i) over i = 0..7')
 
 
@@ -106,6 +166,7 @@ def rule_decode(ctx, repo):
             defs.setdefault(norm(n.targets[0]), []).append(n)
     nb = defs.get('nbytes', [None])[0]
     shape.verdict(r, 'exponent', fi.site, nb.value if nb is not None else None, '(%s >> 24) & 0xFF' % c, 'exponent')
+    from ..rules import equiv as _equiv
     ifs = [n for n in walk_no_nested(fi.node) if isinstance(n, ast.If)]
     if len(ifs) != 1:
         r.undecided('branches', fi.site, 'expected one exponent test')
@@ -114,23 +175,34 @@ def rule_decode(ctx, repo):
     g = canon_guard(t.test, repo, fi.module)
     if g == 'nbytes < 4':
         r.ok('threshold', common.site_of(fi, t), 'exponents up to 3 shift right')
-        small, large = t.body, t.orelse
+        small = t.body
+        large = t.orelse if t.orelse else fi.node.body[fi.node.body.index(t) + 1:]
     elif g == 'nbytes > 3':
         r.ok('threshold', common.site_of(fi, t), 'exponents above 3 shift left')
-        small, large = t.orelse, t.body
+        large = t.body
+        small = t.orelse if t.orelse else fi.node.body[fi.node.body.index(t) + 1:]
     elif 'nbytes' in g:
         r.violated('threshold', common.site_of(fi, t), 'the exponent test is `%s`; reference: exponents <= 3 shift right, larger ones left' % g)
         return
     else:
         r.undecided('threshold', common.site_of(fi, t), 'unrecognised test `%s`' % g)
         return
-    sv = [s.value for s in small if isinstance(s, ast.Assign)]
-    lv = [s.value for s in large if isinstance(s, ast.Assign)]
-    shape.verdict(r, 'small-exponent', common.site_of(fi, t), sv[0] if sv else None, '(%s & 0xFFFFFF) >> 8 * (3 - nbytes)' % c, 'value for exponents <= 3')
-    shape.verdict(r, 'large-exponent', common.site_of(fi, t), lv[0] if lv else None, '(%s & 0xFFFFFF) << (8 * (nbytes - 3))' % c, 'value for exponents > 3')
+    tgt_names = [norm(s_.targets[0]) for s_ in list(small) + list(large) if isinstance(s_, ast.Assign) and len(s_.targets) == 1]
+    target = tgt_names[0] if tgt_names else 'v'
+    tail_ret = [s_ for s_ in fi.node.body[fi.node.body.index(t) + 1:] if isinstance(s_, ast.Return)] if t in fi.node.body else []
+    sv = branch_value(list(small), target)
+    lv = branch_value(list(large), target)
+    if sv is not None:
+        sv = common.resolved(fi, sv, repo, defs={k_: v_ for k_, v_ in common.local_defs(fi).items() if k_ not in (target, 'nbytes')})
+    if lv is not None:
+        lv = common.resolved(fi, lv, repo, defs={k_: v_ for k_, v_ in common.local_defs(fi).items() if k_ not in (target, 'nbytes')})
+    shape.verdict(r, 'small-exponent', common.site_of(fi, t), sv, '(%s & 0xFFFFFF) >> 8 * (3 - nbytes)' % c, 'value for exponents <= 3')
+    shape.verdict(r, 'large-exponent', common.site_of(fi, t), lv, '(%s & 0xFFFFFF) << (8 * (nbytes - 3))' % c, 'value for exponents > 3')
     rets = [n for n in walk_no_nested(fi.node) if isinstance(n, ast.Return)]
-    target = norm((small[0].targets[0])) if small and isinstance(small[0], ast.Assign) else 'v'
-    if len(rets) == 1 and norm(rets[0].value) == target:
+    branch_rets = [n for n in rets if any(n is x for b_ in (small, large) for s_ in b_ for x in ast.walk(s_))]
+    if len(branch_rets) == 2 and len(rets) == 2:
+        r.ok('result', common.site_of(fi, rets[0]), 'each arm returns its decoded integer as is')
+    elif len(rets) == 1 and norm(rets[0].value) == target:
         r.ok('result', common.site_of(fi, rets[0]), 'the decoded integer is returned as is')
     elif len(rets) == 1 and target in norm(rets[0].value):
         r.violated('result', common.site_of(fi, rets[0]), 'the decoded value is post-processed (`%s`): an overflowing compact value must stay above every limit, not wrap around' % norm(rets[0].value))
@@ -159,10 +231,10 @@ def rule_encode(ctx, repo):
             r.violated('threshold', common.site_of(fi, t), 'size test is `%s`; reference: up to 3 bytes shift left, more shift right' % g)
         else:
             r.ok('threshold', common.site_of(fi, t), g)
-            sv = [s.value for s in small if isinstance(s, ast.Assign)]
-            lv = [s.value for s in large if isinstance(s, ast.Assign)]
-            shape.verdict(r, 'small', common.site_of(fi, t), sv[0] if sv else None, '(%s & 0xFFFFFF) << 8 * (3 - nbytes)' % v, 'mantissa for up to 3 bytes')
-            shape.verdict(r, 'large', common.site_of(fi, t), lv[0] if lv else None, '%s >> 8 * (nbytes - 3)' % v, 'mantissa for more than 3 bytes')
+            sv = branch_value(list(small), 'compact')
+            lv = branch_value(list(large), 'compact')
+            shape.verdict(r, 'small', common.site_of(fi, t), sv, '(%s & 0xFFFFFF) << 8 * (3 - nbytes)' % v, 'mantissa for up to 3 bytes')
+            shape.verdict(r, 'large', common.site_of(fi, t), lv, '(%s >> 8 * (nbytes - 3)) & 0xFFFFFF' % v, 'mantissa for more than 3 bytes')
     else:
         r.undecided('threshold', fi.site, 'size test not found')
     if len(signif) != 1:
